@@ -453,6 +453,13 @@ def permute_manifests(r, t, which):
             continue
         lines = raw.decode('utf8', 'replace').split('\n')
         body = [x for x in lines if x.strip()]
+        # the name/value pairs of an entry are a dict as well: their order in the old Manifest is arbitrary
+        for k, x in enumerate(body):
+            f = x.split(' ')
+            if f[0] in ('DATA', 'MISC', 'EBUILD', 'AUX', 'MANIFEST', 'DIST') and len(f) >= 7 and len(f) % 2 == 1 and '' not in f and r.random() < 0.5:
+                pairs = list(zip(f[3::2], f[4::2]))
+                r.shuffle(pairs)
+                body[k] = ' '.join(f[:3] + [y for pr in pairs for y in pr])
         if len(body) < 2:
             continue
         r.shuffle(body)
